@@ -392,6 +392,14 @@ func (f *Filler) Fill(v reflect.Value, depth int) {
 		for i := 0; i < n; i++ {
 			k := reflect.New(t.Key()).Elem()
 			f.Fill(k, depth+1)
+			if k.Kind() == reflect.Pointer && !k.IsNil() && k.Elem().Kind() == reflect.Struct && k.Elem().NumField() > 0 && k.Elem().Field(0).CanInt() {
+				// distinct pointers must not render as the same key text: the order of equal
+				// keys is unspecified on both sides
+				k.Elem().Field(0).SetInt(int64(i)*7919 + int64(r.Intn(7000)))
+			}
+			if k.Kind() == reflect.Pointer && k.IsNil() && i > 0 {
+				continue // at most one nil key, it renders as ""
+			}
 			e := reflect.New(t.Elem()).Elem()
 			f.Fill(e, depth+1)
 			m.SetMapIndex(k, e)
@@ -412,6 +420,34 @@ func (f *Filler) Fill(v reflect.Value, depth int) {
 			f.Fill(fv, depth+1)
 		}
 	case reflect.Interface:
+		if t.NumMethod() != 0 && depth <= maxDepth {
+			// non-empty interfaces: error, fmt.Stringer, Linker - nil, a typed nil pointer or a value
+			switch {
+			case t == reflect.TypeOf((*error)(nil)).Elem():
+				if f.R.Chance(1, 3) {
+					v.Set(reflect.ValueOf(fmt.Errorf("e%d", f.R.Intn(9))))
+				}
+			case t == reflect.TypeOf((*fmt.Stringer)(nil)).Elem():
+				switch f.R.Intn(4) {
+				case 0:
+					v.Set(reflect.ValueOf((*strg)(nil)))
+				case 1:
+					v.Set(reflect.ValueOf(&strg{f.str()}))
+				}
+			case t == reflect.TypeOf((*Linker)(nil)).Elem():
+				switch f.R.Intn(4) {
+				case 0:
+					v.Set(reflect.ValueOf((*LNode)(nil)))
+				case 1:
+					if depth < 4 {
+						n := &LNode{V: f.R.Intn(100)}
+						f.Fill(reflect.ValueOf(n).Elem().Field(1), depth+1)
+						v.Set(reflect.ValueOf(n))
+					}
+				}
+			}
+			return
+		}
 		if t.NumMethod() != 0 || depth > maxDepth {
 			return
 		}
@@ -438,6 +474,9 @@ func (f *Filler) anyValue(depth int) any {
 	case 1:
 		return r.Bool()
 	case 2:
+		if !f.NoNaN && r.Chance(1, 5) { // unsupported values held directly by an interface
+			return []float64{math.NaN(), math.Inf(1), math.Inf(-1)}[r.Intn(3)]
+		}
 		return float64(r.Int64() % 100000)
 	case 3:
 		return f.str()
@@ -463,6 +502,14 @@ func (f *Filler) anyValue(depth int) any {
 	case 11:
 		return stdjson.Number(numPool[r.Intn(len(numPool))])
 	case 12:
+		switch r.Intn(4) { // typed nils: an interface holding one is not empty
+		case 0:
+			return (*int)(nil)
+		case 1:
+			return map[string]int(nil)
+		case 2:
+			return []int(nil)
+		}
 		return uint8(r.Intn(256))
 	default:
 		return []int{1, 2, 3}
